@@ -180,6 +180,13 @@ pub(crate) fn validate(input: &DataType) -> Result<()> {
         },
     }
 
+    // the last check concerns what the expander can write at all; it runs for an input that is otherwise in order
+    if let (true, DataType::Enum(e)) = (errors.is_empty(), input) {
+        for v in &e.variants {
+            validate_variant_arm(v, attrs, &mut errors);
+        }
+    }
+
     if errors.is_empty() {
         Ok(())
     } else {
@@ -521,6 +528,34 @@ fn validate_variant_fields(input: &Variant, data_type_attrs: &DataTypeAttrs, _ty
                     }
                 }
             }
+        }
+    }
+}
+
+/// a variant's arm in the `match` of a conversion: not every combination of a variant-level trait instruction, #[literal(...)] and #[pattern(...)] has a form
+fn validate_variant_arm(input: &Variant, data_type_attrs: &DataTypeAttrs, errors: &mut Errors) {
+    for (data_type_attr, kind) in trait_attrs_by_kind(data_type_attrs) {
+        let ty = &data_type_attr.core.ty;
+        if data_type_attr.core.quick_return.is_some() {
+            continue;
+        }
+
+        // ghost variants have no arm of their own: on the 'from' side always, on the 'into' side when they have no default value
+        let ghost = input.attrs.ghost(ty, &kind);
+        if kind.is_from() && ghost.is_some() || !kind.is_from() && ghost.is_some_and(|x| x.action.is_none()) {
+            continue;
+        }
+
+        let supported = match (input.attrs.applicable_attr(&kind, data_type_attr.fallible, ty).is_some(), input.attrs.lit(ty).is_some(), input.attrs.pat(ty).is_some()) {
+            (false, false, false) => true,
+            (true, false, false) | (false, true, false) => !kind.is_into_existing(),
+            (false, false, true) => kind.is_from(),
+            (true, false, true) => !kind.is_from() && !kind.is_into_existing(),
+            _ => false,
+        };
+
+        if !supported {
+            errors.insert(format!("Variant {}: this combination of a variant-level trait instruction, #[literal(...)] and #[pattern(...)] is not supported for #[{}({}...)] trait instruction", input.ident, FallibleKind(kind, data_type_attr.fallible), ty.path_str), input.ident.span());
         }
     }
 }
